@@ -45,7 +45,24 @@ def case(draw):
     irr = draw(st.integers(0, 9)) == 0
     n = draw(st.integers(2, 4))
     els = [draw(element(fam, irr)) for _ in range(n)]
-    mode = draw(st.sampled_from(["plain", "plain", "coincide", "dup"]))
+    mode = draw(st.sampled_from(["plain", "plain", "coincide", "dup", "chain"]))
+    if mode == "chain":
+        # three mutually non-redundant scalings of ONE base whose magnitudes share a prefix P: P, P*q^a/r and P*t/p^b with primes q < p < r, t.  Ordering them needs the
+        # "shorter pack first" rule AND the "smaller exponent first" rule together (an intransitive mix of the two gives a different sort for each input order)
+        nm = draw(st.sampled_from(FAMILIES[fam]))
+        kind = draw(st.sampled_from(["named", "anon", "anon"]))
+        P = draw(st.sampled_from([1, 1, 2, 3, 4]))
+        q, p_ = draw(st.sampled_from([(2, 3), (2, 5), (3, 5), (5, 7), (3, 7)]))
+        if P % q == 0 or P % p_ == 0:
+            P = 1
+        r, t = draw(st.sampled_from([(11, 13), (13, 11), (7919, 8191), (17, 65537)]))
+        a, b_ = draw(st.sampled_from([(1, 1), (2, 1), (1, 2), (3, 3)]))
+        first = {"k": "lib", "n": nm} if P == 1 else {"k": kind, "n": nm, "num": P, "den": 1, "pi": [0, 1]}
+        els = [first, {"k": kind, "n": nm, "num": P * q ** a, "den": r, "pi": [0, 1]}, {"k": kind, "n": nm, "num": P * t, "den": p_ ** b_, "pi": [0, 1]}]
+        els = list(draw(st.permutations(els)))
+        if draw(st.booleans()):
+            els.append(draw(element(fam, False)))
+        return {"fam": fam, "els": els, "mode": "plain", "r1": draw(st.sampled_from(REPS)), "r2": draw(st.sampled_from(REPS)), "pick": draw(st.integers(0, 3))}
     if mode == "coincide" and not irr and len(FAMILIES[fam]) >= 2:
         # two anonymous scalings of DIFFERENT library units that coincide in size (distinct types, quantity-equivalent), fine enough to be the common unit
         a, b = draw(st.permutations(FAMILIES[fam]))[:2]
